@@ -315,6 +315,8 @@ class Probe:
         self.tape.rs.seed(iter_seed(self.base, self.iters, sym))
 
     def _emit(self, step, **info):
+        if getattr(self, "mute", False):
+            return
         self.events += 1
         ev = Event(step, self, self.iters, info)
         for m in self.monitors:
